@@ -1863,11 +1863,214 @@ fn gen_c14_script<C: Coll>(r: &mut Rng, kind: u64, fault_at: Option<usize>) -> V
     s
 }
 
+// ------------------------------------------------------------------------------------------------
+// C14: events that do not apply.  A subscription is `Serialize + Deserialize`; a peer may send any
+// snapshot together with any event stream.  The harness forges one (same serde shape as
+// `VecSubscription` / `VecDequeSubscription`), sends it across a real connection, mirrors it and feeds
+// events that do not fit the snapshot.
+// ------------------------------------------------------------------------------------------------
+
+#[derive(serde::Serialize, serde::Deserialize)]
+enum ForgedInitial {
+    Value(Vec<T>),
+    #[allow(dead_code)]
+    Incremental { len: usize, rx: rch::mpsc::Receiver<T> },
+}
+
+#[derive(serde::Serialize, serde::Deserialize)]
+#[serde(bound(serialize = "E: remoc::RemoteSend + Clone", deserialize = "E: remoc::RemoteSend + Clone"))]
+struct ForgedSub<E> {
+    initial: ForgedInitial,
+    events: Option<rch::broadcast::Receiver<E>>,
+}
+
+/// send a value of type `A` over a fresh connection and receive it as type `B`
+async fn transmute_over_connection<A: remoc::RemoteSend, B: remoc::RemoteSend>(a: A) -> (B, Vec<tokio::task::JoinHandle<()>>) {
+    let (x, y) = tokio::io::duplex(1 << 16);
+    let (x_r, x_w) = tokio::io::split(x);
+    let (y_r, y_w) = tokio::io::split(y);
+    let cfg = remoc::Cfg::default();
+    let fa = remoc::Connect::io::<_, _, A, (), remoc::codec::Default>(cfg.clone(), x_r, x_w);
+    let fb = remoc::Connect::io::<_, _, (), B, remoc::codec::Default>(cfg, y_r, y_w);
+    let (ra, rb) = tokio::join!(fa, fb);
+    let (conn_a, mut tx, _rx_a) = ra.expect("connect a");
+    let (conn_b, _tx_b, mut rx) = rb.expect("connect b");
+    let ta = tokio::spawn(async move {
+        let _ = conn_a.await;
+    });
+    let tb = tokio::spawn(async move {
+        let _ = conn_b.await;
+    });
+    if tx.send(a).await.is_err() {
+        panic!("harness: sending the forged subscription failed");
+    }
+    let b = rx.recv().await.expect("recv forged").expect("forged");
+    (b, vec![ta, tb])
+}
+
+fn parse_vec_event(t: &str) -> VecEvent<T> {
+    let w: Vec<&str> = t.split(' ').collect();
+    let n = |i: usize| w[i].parse::<usize>().unwrap();
+    let x = |i: usize| w[i].parse::<T>().unwrap();
+    match w[0] {
+        "Push" => VecEvent::Push(x(1)),
+        "Pop" => VecEvent::Pop,
+        "Insert" => VecEvent::Insert(n(1), x(2)),
+        "Set" => VecEvent::Set(n(1), x(2)),
+        "Remove" => VecEvent::Remove(n(1)),
+        "SwapRemove" => VecEvent::SwapRemove(n(1)),
+        "Fill" => VecEvent::Fill(x(1)),
+        "Resize" => VecEvent::Resize(n(1), x(2)),
+        "Truncate" => VecEvent::Truncate(n(1)),
+        "Clear" => VecEvent::Clear,
+        "Done" => VecEvent::Done,
+        other => panic!("harness: forge event {other}"),
+    }
+}
+
+fn parse_deque_event(t: &str) -> VecDequeEvent<T> {
+    let w: Vec<&str> = t.split(' ').collect();
+    let n = |i: usize| w[i].parse::<usize>().unwrap();
+    let x = |i: usize| w[i].parse::<T>().unwrap();
+    match w[0] {
+        "PushBack" => VecDequeEvent::PushBack(x(1)),
+        "PushFront" => VecDequeEvent::PushFront(x(1)),
+        "PopBack" => VecDequeEvent::PopBack,
+        "PopFront" => VecDequeEvent::PopFront,
+        "Insert" => VecDequeEvent::Insert(n(1), x(2)),
+        "Set" => VecDequeEvent::Set(n(1), x(2)),
+        "Remove" => VecDequeEvent::Remove(n(1)),
+        "SwapRemoveBack" => VecDequeEvent::SwapRemoveBack(n(1)),
+        "SwapRemoveFront" => VecDequeEvent::SwapRemoveFront(n(1)),
+        "Resize" => VecDequeEvent::Resize(n(1), x(2)),
+        "Truncate" => VecDequeEvent::Truncate(n(1)),
+        "Clear" => VecDequeEvent::Clear,
+        "Done" => VecDequeEvent::Done,
+        other => panic!("harness: forge event {other}"),
+    }
+}
+
+/// forged scenario: `init <snapshot>`, `max <n>`, `fev <event>`...; the mirror is inspected after every event
+async fn run_forged(id: &str, coll: &str, script: &[String], st: &mut Stats, out: &mut String) {
+    let _ = writeln!(out, "case {id} {coll} c14");
+    let mut snapshot: Vec<T> = Vec::new();
+    let mut max = 1_000_000usize;
+    let mut events: Vec<String> = Vec::new();
+    for l in script {
+        let (cmd, rest) = l.split_once(' ').unwrap_or((l.as_str(), ""));
+        match cmd {
+            "init" => snapshot = parse_list(rest),
+            "max" => max = rest.parse().unwrap(),
+            "fev" => events.push(rest.to_string()),
+            "forged" => (),
+            other => panic!("harness: bad forged script line {other}"),
+        }
+        let _ = writeln!(out, "cmd {l}");
+    }
+    let _ = writeln!(out, "init {}", list_text(snapshot.iter().copied()));
+    let _ = writeln!(out, "sub 0 snap remote mirror buf=1000 max={max} forged");
+    st.hit("c14_forged_cases");
+    macro_rules! drive {
+        ($Ev:ty, $Sub:ty, $parse:ident, $C:ty) => {{
+            let (tx, rx) = rch::broadcast::channel::<$Ev, remoc::codec::Default, { rch::DEFAULT_BUFFER }>(1000);
+            let forged = ForgedSub { initial: ForgedInitial::Value(snapshot.clone()), events: Some(rx) };
+            let (sub, tasks): ($Sub, _) = transmute_over_connection(forged).await;
+            let m = <$C as Coll>::mirror(sub, max);
+            for e in &events {
+                let _ = tx.send($parse(e));
+                let _ = writeln!(out, "ev {e}");
+                settle().await;
+                let _ = writeln!(out, "settled");
+                match <$C as Coll>::borrow(&m).await {
+                    Ok((c, complete, done)) => {
+                        let _ = writeln!(out, "borrow 0 {c} complete={} done={} err=-", complete as u8, done as u8);
+                    }
+                    Err(e) => {
+                        let _ = writeln!(out, "borrow 0 ? complete=? done=? err={e}");
+                    }
+                }
+                st.hit("c14_forged_events");
+            }
+            let _ = writeln!(out, "final 0 {}", <$C as Coll>::detach(m).await);
+            for t in tasks {
+                t.abort();
+            }
+        }};
+    }
+    match coll {
+        "vec" => drive!(VecEvent<T>, VecSubscription<T>, parse_vec_event, CVec),
+        _ => drive!(VecDequeEvent<T>, VecDequeSubscription<T>, parse_deque_event, CDeque),
+    }
+    let _ = writeln!(out, "end");
+}
+
+/// a forged script: a snapshot and events of which some do not fit
+fn gen_forged_script(coll: &str, r: &mut Rng) -> Vec<String> {
+    let n = r.below(5) as usize;
+    let mut s = vec!["forged".to_string(), format!("init {}", list_text((0..n).map(|_| val(r))))];
+    if r.chance(1, 3) {
+        s.push(format!("max {}", r.range(1, 6)));
+    }
+    let mut len = n;
+    let m = r.range(2, 9);
+    for _ in 0..m {
+        // indices around the current length: mostly valid, sometimes just beyond
+        let i = match r.below(4) {
+            0 => len + r.below(2) as usize,
+            1 => len + 1,
+            _ => {
+                if len == 0 { 0 } else { r.below(len as u64) as usize }
+            }
+        };
+        let push = if coll == "vec" { "Push" } else { "PushBack" };
+        let swap = if coll == "vec" { "SwapRemove" } else if r.bool() { "SwapRemoveBack" } else { "SwapRemoveFront" };
+        let e = match r.below(8) {
+            0 | 1 => {
+                len += 1;
+                format!("{push} {}", val(r))
+            }
+            2 => {
+                if i <= len {
+                    len += 1;
+                }
+                format!("Insert {i} {}", val(r))
+            }
+            3 | 4 => format!("Set {i} {}", val(r)),
+            5 => {
+                if i < len {
+                    len -= 1;
+                }
+                format!("Remove {i}")
+            }
+            6 => {
+                if i < len {
+                    len -= 1;
+                }
+                format!("{swap} {i}")
+            }
+            _ => {
+                let t = r.below(len as u64 + 2) as usize;
+                len = len.min(t);
+                format!("Truncate {t}")
+            }
+        };
+        s.push(format!("fev {e}"));
+    }
+    if r.bool() {
+        s.push("fev Done".into());
+    }
+    s
+}
+
 fn run_case_c14(coll: &str, id: &str, script: &[String], r: &mut Rng, st: &mut Stats) -> String {
     let rt = tokio::runtime::Builder::new_current_thread().enable_time().start_paused(true).build().unwrap();
     let mut out = String::new();
+    let forged = script.first().map(|l| l == "forged").unwrap_or(false);
     let res = catch_unwind(AssertUnwindSafe(|| {
         rt.block_on(async {
+            if forged {
+                return run_forged(id, coll, script, st, &mut out).await;
+            }
             match coll {
                 "vec" => run_c14::<CVec>(id, script, r, st, &mut out).await,
                 "deque" => run_c14::<CDeque>(id, script, r, st, &mut out).await,
@@ -1960,6 +2163,13 @@ fn main() {
             let n: u64 = args[3].parse().unwrap();
             let kinds = ["lag", "maxsize", "cut", "drop"];
             for i in 0..n {
+                // events that do not apply: forged subscriptions for the two index based collections
+                for coll in ["vec", "deque"] {
+                    let mut r = rng.fork();
+                    let script = gen_forged_script(coll, &mut r);
+                    let text = run_case_c14(coll, &format!("{coll}-{i}-forged"), &script, &mut r, &mut st);
+                    w.write_all(text.as_bytes()).unwrap();
+                }
                 for coll in COLLS {
                     let kind = [0u64, 1, 2, 0, 1, 3][(i % 6) as usize];
                     let base = rng.fork();
